@@ -238,6 +238,20 @@ def _matmul(a, b):
     return einsum("...ij,...jk->...ik", a, b)
 
 
+def _np_array(a):
+    """np.array of a (nested) sequence of object arrays / scalars: all parts must have one shape"""
+    if isinstance(a, (list, tuple)):
+        parts = [_np_array(x) for x in a]
+        shapes = {np.shape(p) for p in parts}
+        if len(shapes) > 1:
+            raise Raised(f"ValueError: setting an array element with a sequence (inhomogeneous shapes {sorted(shapes)})")
+        out = np.empty((len(parts),) + (shapes.pop() if shapes else ()), dtype=object)
+        for k, p_ in enumerate(parts):
+            out[k] = p_[()] if isinstance(p_, np.ndarray) and p_.ndim == 0 else p_
+        return out
+    return a if isinstance(a, np.ndarray) else np.asarray(a, dtype=object)
+
+
 NP_FUNCS: dict[str, Callable] = {
     "einsum": einsum,
     "multiply": _ufunc(lambda a, b: a * b),
@@ -258,7 +272,7 @@ NP_FUNCS: dict[str, Callable] = {
     "zeros_like": lambda a, **kw: _zeros(np.shape(a)),
     "asarray": lambda a, **kw: a,
     "asanyarray": lambda a, **kw: a,
-    "array": lambda a, **kw: np.array(a, dtype=object),
+    "array": lambda a, **kw: _np_array(a),
     "tensordot": _tensordot,
     "matmul": _matmul,
     "dot": lambda a, b: _matmul(a, b) if np.ndim(b) <= 1 or np.ndim(a) <= 1 else einsum("...j,jk->...k", a, b) if np.ndim(b) == 2 else (_ for _ in ()).throw(Unsupported("np.dot with nd second operand")),
@@ -267,6 +281,9 @@ NP_FUNCS: dict[str, Callable] = {
     "shape": np.shape,
     "ndim": np.ndim,
     "broadcast_to": lambda a, s: np.broadcast_to(a, s),
+    "broadcast_arrays": lambda *a: [np.asarray(x, dtype=object) for x in np.broadcast_arrays(*[np.asarray(x, dtype=object) for x in a])],
+    "reshape": lambda a, shape: np.reshape(np.asarray(a, dtype=object), shape),
+    "ndindex": lambda *shape: list(np.ndindex(*shape)),
 }
 NP_CONSTS = {"newaxis": None, "pi": sp.pi}  # np.ndarray is added below (needs KindRef)
 
@@ -446,6 +463,8 @@ class NpSem:
                 it = list(it)
             if isinstance(it, (dict, str, set)):
                 it = list(it)
+            if isinstance(it, Stub) and "__iter__" in it._attrs:
+                it = list(it._attrs["__iter__"]())
             if not isinstance(it, (range, list, tuple)):
                 self.fail(s, f"loop over a value of unknown extent ({it!r})")
             for v in it:
@@ -594,7 +613,7 @@ class NpSem:
             return scope.get(node.id)
         except KeyError:
             pass
-        if node.id in ("range", "len", "isinstance", "tuple", "list", "int", "float", "abs", "min", "max", "sum", "enumerate", "zip", "slice"):
+        if node.id in ("range", "len", "isinstance", "tuple", "list", "int", "float", "abs", "min", "max", "sum", "enumerate", "zip", "slice", "str", "any", "all", "sorted", "reversed", "bool"):
             return node.id
         if node.id in ("None", "True", "False"):
             return {"None": None, "True": True, "False": False}[node.id]
@@ -767,6 +786,8 @@ class NpSem:
             it = self.eval(g.iter, sc)
             if isinstance(it, (np.ndarray, dict, str, set)):
                 it = list(it)
+            if isinstance(it, Stub) and "__iter__" in it._attrs:
+                it = list(it._attrs["__iter__"]())
             if not isinstance(it, (range, list, tuple)):
                 self.fail(node, f"comprehension over a value of unknown extent ({it!r})")
             for v in it:
@@ -806,7 +827,21 @@ class NpSem:
         return Closure(node, scope, self)
 
     def e_JoinedStr(self, node, scope):
-        return "<fstring>"
+        out = []
+        for v in node.values:
+            if isinstance(v, ast.Constant):
+                out.append(str(v.value))
+            elif isinstance(v, ast.FormattedValue):
+                val = self.eval(v.value, scope)
+                if isinstance(val, (Opaque, Stub)) and not (isinstance(val, Stub) and "__str__" in val._attrs):
+                    out.append(f"<{val!r}>")
+                elif isinstance(val, Stub):
+                    out.append(val._attrs["__str__"]())
+                elif v.conversion == 114:
+                    out.append(repr(val))
+                else:
+                    out.append(format(val, self.eval(v.format_spec, scope) if v.format_spec is not None else ""))
+        return "".join(out)
 
     def e_Call(self, node, scope):
         f = self.eval(node.func, scope)
@@ -830,6 +865,8 @@ class NpSem:
             if f == "isinstance":
                 return self.isinstance_(args[0], args[1], node)
             if f in ("tuple", "list"):
+                if args and isinstance(args[0], Stub) and "__iter__" in args[0]._attrs:
+                    args = [list(args[0]._attrs["__iter__"]())]
                 return (tuple if f == "tuple" else list)(args[0]) if args else (() if f == "tuple" else [])
             if f in ("int", "float"):
                 return args[0]
@@ -845,6 +882,17 @@ class NpSem:
                 return list(zip(*args))
             if f == "slice":
                 return slice(*args)
+            if f == "str":
+                v = args[0]
+                return v._attrs["__str__"]() if isinstance(v, Stub) and "__str__" in v._attrs else str(v)
+            if f in ("any", "all"):
+                return (any if f == "any" else all)(bool(x) for x in args[0])
+            if f == "sorted":
+                return sorted(args[0])
+            if f == "reversed":
+                return list(reversed(list(args[0]._attrs["__iter__"]()) if isinstance(args[0], Stub) else list(args[0])))
+            if f == "bool":
+                return bool(args[0])
         if isinstance(f, Opaque):
             return Opaque(f"{f.name}(...)")
         if isinstance(f, KindRef):
